@@ -42,8 +42,11 @@ def cost_min_size(name, p):
     return 1 if name in ("L1Cost", "TrendL2", "MemoAbs") else c01.min_size_of(name, p)
 
 
-def to_container(X, container):
+def to_container(X, container, int64=False):
     import pandas as pd
+
+    if int64:
+        X = X.astype(np.int64)
 
     if container == "DataFrame":
         return pd.DataFrame(X, columns=[f"c{j}" for j in range(X.shape[1])])
@@ -79,7 +82,7 @@ def n_min_for(kind, ms):
 
 
 @st.composite
-def base_case(draw, tier, kind, costs=COSTS):
+def base_case(draw, tier, kind, costs=COSTS, param_mode="none"):
     cost = draw(st.sampled_from(costs))
     p = draw(st.integers(1, 4 if cost != "GaussianCovCost" else 2))
     ms = cost_min_size(cost, p)
@@ -95,7 +98,24 @@ def base_case(draw, tier, kind, costs=COSTS):
         cuts = draw(c01.intervals(n, ms, max_batch=8))
     case = {"cost": cost, "cuts": cuts, "container": draw(st.sampled_from(["ndarray", "DataFrame"])),
             "extra": draw(st.sampled_from([2.5, 1.0, 0.5])) if cost in ("L1Cost", "TrendL2") else None}
-    case["X"] = draw(D.any_matrix(n, p))  # bulk data last (see strategies/data.py)
+    # fixed parameter of the cost (drawn before the bulk data, see strategies/data.py)
+    case["param"] = None
+    if param_mode == "always" or (param_mode == "sometimes" and draw(st.integers(0, 2)) == 0):
+        if cost == "MemoAbs":
+            case["param"] = {"mean": draw(st.floats(-5, 5, allow_nan=False))}
+        elif cost in ("L1Cost", "TrendL2"):
+            case["param"] = {"mean": draw(st.one_of(st.floats(-5, 5, allow_nan=False),
+                                                    st.lists(st.floats(-5, 5, allow_nan=False), min_size=p, max_size=p)))}
+        else:
+            case["param"] = draw(c01.fixed_param(cost, p))
+    # integer-valued data of the size of byte / event counts (2e7 .. 4e8), handed over as an int64 array or frame
+    counts = cost in ("L2Cost", "L1Cost", "TrendL2", "MemoAbs") and draw(st.integers(0, 7)) == 0
+    if counts:
+        X = draw(D.exact_matrix(n, p, dyadic=False))
+        case["X"] = [[(v + 10) * 2e7 for v in row] for row in X]
+        case["counts_int64"] = True
+    else:
+        case["X"] = draw(D.any_matrix(n, p))  # bulk data last (see strategies/data.py)
     return case
 
 
@@ -129,10 +149,7 @@ def compare_rows(what, got, want_rows, cuts, scale_rows):
 
 @st.composite
 def change_cases(draw, tier):
-    case = draw(base_case(tier, "change"))
-    p = len(case["X"][0])
-    case["param"] = draw(c01.fixed_param(case["cost"], p)) if (case["cost"] not in ("L1Cost", "TrendL2", "MemoAbs") and draw(st.integers(0, 4)) == 0) else None
-    return case
+    return draw(base_case(tier, "change", param_mode="sometimes"))
 
 
 def check_change(case):
@@ -140,7 +157,7 @@ def check_change(case):
 
     X = np.asarray(case["X"], dtype=float)
     cuts = case["cuts"]
-    Xc = to_container(X, case["container"])
+    Xc = to_container(X, case["container"], case.get("counts_int64", False))
     fresh = make_cost(case["cost"], case["param"], case.get("extra")).fit(X)
     with sut("ChangeScore(cost).fit"):
         sc = ChangeScore(make_cost(case["cost"], case["param"], case.get("extra"))).fit(Xc)
@@ -188,16 +205,7 @@ def check_change(case):
 
 @st.composite
 def saving_cases(draw, tier):
-    case = draw(base_case(tier, "saving"))
-    p = len(case["X"][0])
-    if case["cost"] == "MemoAbs":
-        case["param"] = {"mean": draw(st.floats(-5, 5, allow_nan=False))}
-    elif case["cost"] in ("L1Cost", "TrendL2"):
-        case["param"] = {"mean": draw(st.one_of(st.floats(-5, 5, allow_nan=False),
-                                                st.lists(st.floats(-5, 5, allow_nan=False), min_size=p, max_size=p)))}
-    else:
-        case["param"] = draw(c01.fixed_param(case["cost"], p))
-    return case
+    return draw(base_case(tier, "saving", param_mode="always"))
 
 
 def check_saving(case):
@@ -205,7 +213,7 @@ def check_saving(case):
 
     X = np.asarray(case["X"], dtype=float)
     cuts = case["cuts"]
-    Xc = to_container(X, case["container"])
+    Xc = to_container(X, case["container"], case.get("counts_int64", False))
     base = make_cost(case["cost"], case["param"], case.get("extra")).fit(X)
     opt = make_cost(case["cost"], None, case.get("extra")).fit(X)
     with sut("Saving(cost).fit"):
@@ -241,9 +249,8 @@ def check_saving(case):
 
 @st.composite
 def local_cases(draw, tier):
-    case = draw(base_case(tier, "local"))
-    case["param"] = None
-    return case
+    # the definition C(s,e) - C(a,b) - C(pooled surroundings) holds for any cost, also one with a fixed parameter
+    return draw(base_case(tier, "local", param_mode="sometimes"))
 
 
 def check_local(case):
@@ -251,15 +258,15 @@ def check_local(case):
 
     X = np.asarray(case["X"], dtype=float)
     cuts = case["cuts"]
-    Xc = to_container(X, case["container"])
-    fresh = make_cost(case["cost"], None, case.get("extra")).fit(X)
+    Xc = to_container(X, case["container"], case.get("counts_int64", False))
+    fresh = make_cost(case["cost"], case.get("param"), case.get("extra")).fit(X)
     with sut("LocalAnomalyScore(cost).fit"):
-        sc = LocalAnomalyScore(make_cost(case["cost"], None, case.get("extra"))).fit(Xc)
+        sc = LocalAnomalyScore(make_cost(case["cost"], case.get("param"), case.get("extra"))).fit(Xc)
     want, scales = [], []
     for s, a, b, e in cuts:
         parts = evaluate_or_none(fresh, [[s, e], [a, b]])
         pooled = np.concatenate((X[s:a], X[b:e]))
-        pc = make_cost(case["cost"], None, case.get("extra")).fit(pooled)
+        pc = make_cost(case["cost"], case.get("param"), case.get("extra")).fit(pooled)
         parts += evaluate_or_none(pc, [[0, len(pooled)]])
         if any(x is None for x in parts):
             want.append(None)
@@ -292,7 +299,8 @@ def check_local(case):
             if not np.allclose(batch[i], got[i], rtol=1e-12, atol=1e-12 * (1 + scales[i])):
                 raise Violation("LocalAnomalyScore row depends on the batch", cut=cuts[i])
     nt = any(w is not None and not np.all(X[c[0]:c[3]] == X[c[0]]) for w, c in zip(want, cuts))
-    return {"nontrivial": nt, "classes": [f"cost={case['cost']}", case["container"]]}
+    return {"nontrivial": nt, "classes": [f"cost={case['cost']}", case["container"], "mode=" + ("fixed" if case.get("param") else "optimal")] +
+            (["int64_counts"] if case.get("counts_int64") else [])}
 
 
 # ------------------------------------------------------------------ direct twins
@@ -314,7 +322,7 @@ def check_twin(case):
     X = np.asarray(case["X"], dtype=float)
     n = len(X)
     cuts = np.asarray(case["cuts"], dtype=np.int64)
-    Xc = to_container(X, case["container"])
+    Xc = to_container(X, case["container"], case.get("counts_int64", False))
     B = ref.error_bound(n, D.max_abs(case["X"]))
     with sut("twin scorers fit/evaluate"):
         if case["which"] == "cusum":
